@@ -74,3 +74,68 @@ Definition ld_hw (cs : list compiled) (nsp : N) (po : N -> N) (w : N) : N :=
   match ld_info cs nsp po w with Some i => as_num (accessor A_hwlen i) | None => 0 end.
 Definition ld_units (cs : list compiled) (nsp : N) (po : N -> N) (a : bool) (w : N) : list N :=
   match ld_info cs nsp po w with Some i => as_arr (accessor (if a then A_a else A_b) i) | None => [] end.
+
+(* ---------- correspondence-check entry: the user-facing form of the oracle ---------- *)
+From SudachiVerif Require Model.Split.
+From SudachiVerif Require Import Model.Harness.
+
+(* constructors for the case files: a row as written (the written length is produced by csv_row), its split units *)
+Definition row (key head reading : text) (pos : N) (a b : list split_unit) : rrow :=
+  csv_row (mkRow key (mkEntry head 0 pos [] 4294967295 reading [] [] [] [] 0%Z 0%Z 0%Z) a b).
+Definition uref (raw : N) : split_unit := SRef raw.
+Definition uinl (surface : text) (pos : N) (reading : text) : split_unit := inline_of surface pos reading.
+
+(* original-text ranges of the sub-tokens the rows prescribe for a token that starts at modified byte `off`:
+   unit j spans the bytes of its key *)
+Fixpoint expected_ranges (ds : srcs) (m2o : list N) (off : N) (us : list N) : option (list (N * (N * N))) :=
+  match us with
+  | [] => Some []
+  | u :: r =>
+      let off' := off + utf8_len (src_key ds u) in
+      match nth_error m2o (N.to_nat off), nth_error m2o (N.to_nat off'), expected_ranges ds m2o off' r with
+      | Some x, Some y, Some l => Some ((u, (x, y)) :: l)
+      | _, _, _ => None
+      end
+  end.
+
+Definition range_eqb (a : N * (N * N)) (b : Model.Split.otoken) : bool :=
+  let '(w, (x, y)) := a in let '(w', (x', y', _)) := b in (w =? w') && (x =? x') && (y =? y').
+
+Definition source_ok_mode (ds : srcs) (t m2o : list N) (a : bool) (cb ce w : N) (stored : list N)
+           (sp : option (bool * list Model.Split.otoken)) : bool :=
+  match src_row ds w with
+  | None => true                                   (* not a dictionary word (OOV) *)
+  | Some _ =>
+    match src_units ds a w with
+    | None => false
+    | Some us =>
+      (* the loaded unit list is the one computed from the rows (C09_loaded_units_are_source_units) *)
+      nlist_eqb us stored &&
+      (* a C token covers the key of its word *)
+      text_eqb (Model.Split.slice t cb ce) (src_key ds w) &&
+      (* whenever the author's condition holds, the implementation's sub-tokens are the declared units, each over the
+         bytes of its key (C09_split_into_exact_from_source) *)
+      (if rows_units_ok ds a w && match us with [] => false | _ => true end then
+         match sp, expected_ranges ds m2o (Model.Split.c2b t cb) us with
+         | Some (true, subs), Some ex =>
+             (N.of_nat (List.length ex) =? N.of_nat (List.length subs)) && forallb (fun p => range_eqb (fst p) (snd p)) (combine ex subs)
+         | _, _ => false
+         end
+       else true)
+    end
+  end.
+
+(* srcs: the rows of every dictionary of the stack; the other arguments as in Model.Split.check_case *)
+Definition check_source (ds : srcs) (t m2o : list N) (cp : list (N * N * N)) (iu : list (list N * list N))
+           (sa sb : list (option (bool * list Model.Split.otoken))) : bool :=
+  (N.of_nat (List.length iu) =? N.of_nat (List.length cp)) && (N.of_nat (List.length sa) =? N.of_nat (List.length cp)) &&
+  (N.of_nat (List.length sb) =? N.of_nat (List.length cp)) &&
+  forallb (fun q => let '(c, u, (x, y)) := q in let '(cb, ce, w) := c in
+                    source_ok_mode ds t m2o true cb ce w (fst u) x && source_ok_mode ds t m2o false cb ce w (snd u) y)
+          (combine (combine cp iu) (combine sa sb)).
+
+(* how many (token, mode) pairs of a case satisfy the author's condition with at least one unit: reported so that the
+   evidence shows the oracle is exercised *)
+Definition count_units_ok (ds : srcs) (cp : list (N * N * N)) : N :=
+  fold_left (fun n c => let '(_, _, w) := c in
+                        n + (if rows_units_ok ds true w then 1 else 0) + (if rows_units_ok ds false w then 1 else 0)) cp 0.
